@@ -36,6 +36,7 @@ type fdCase struct {
 	nLocal      int
 	omitSubrs   bool
 	emptyFiller bool
+	subrsReal   int // spelling of the Subrs offset: 0 integer, 1 real "N", 2 real "N.0"
 }
 
 type glyphCase struct {
@@ -122,6 +123,7 @@ func (fc *fontCase) finish(t *rapid.T) {
 		fc.fds[i].nLocal = drawIndexSize(t, len(loc[i]), "nL")
 		fc.fds[i].emptyFiller = rapid.IntRange(0, 19).Draw(t, "emptyFillL") == 0
 		fc.fds[i].omitSubrs = fc.fds[i].nLocal == 0 && rapid.Bool().Draw(t, "omitSubrs")
+		fc.fds[i].subrsReal = rapid.SampledFrom([]int{0, 0, 0, 0, 0, 1, 2}).Draw(t, "subrsOffsetSpelling")
 		placeSubrs(t, loc[i], fc.fds[i].nLocal, "l")
 	}
 	// random encodings for the call operands
@@ -185,7 +187,7 @@ func (fc *fontCase) build() {
 	}
 	for i, fd := range fc.fds {
 		spec.FDs = append(spec.FDs, refcff.FDSpec{DefaultWidthX: fd.dw, NominalWidthX: fd.nw,
-			Subrs: fc.lsubrs[i], OmitSubrs: fd.omitSubrs})
+			Subrs: fc.lsubrs[i], OmitSubrs: fd.omitSubrs, SubrsOffsetReal: fd.subrsReal})
 	}
 	for _, g := range fc.glyphs {
 		spec.FDSelect = append(spec.FDSelect, g.fd)
@@ -506,7 +508,17 @@ func checkFont(fc *fontCase) (labels []string, nt bool, skip string, fail string
 
 	// second judge
 	xi, xerr := sfnt.Parse(refcff.WrapOTF(fc.data, len(fc.glyphs)))
+	realOffsets := false
+	for _, fd := range fc.fds {
+		if fd.subrsReal != 0 && !fd.omitSubrs {
+			realOffsets = true
+			lab["subrs-offset-spelled-as-real"] = true
+		}
+	}
 	switch {
+	case realOffsets:
+		// x/image does not evaluate real operands in DICTs
+		lab["ximage-abstains-font"] = true
 	case xerr != nil && (xiUnsupported(xerr) || fc.hasEmptyObjects()):
 		lab["ximage-abstains-font"] = true
 	case xerr != nil:
